@@ -170,6 +170,12 @@ func (s *Server) Exit(ctx context.Context) error {
 
 func (s *Server) DidOpen(ctx context.Context, params *protocol.DidOpenTextDocumentParams) error {
 	s.documents.Store(params.TextDocument.URI, params.TextDocument.Text)
+	if s.workspace != nil {
+		if path := uriToPath(params.TextDocument.URI); path != "" {
+			s.workspace.UpdateFile(path, params.TextDocument.Text)
+			s.loader.InvalidateFile(path)
+		}
+	}
 	go s.publishDiagnostics(ctx, params.TextDocument.URI, params.TextDocument.Text)
 	return nil
 }
